@@ -1,2 +1,392 @@
+"""C18 - what radar shows is the tracker's data, placed truthfully on the map.
+
+Bounded model checking on the real binary through the VT screen model: feeds with aircraft (and --locations
+markers) at receiver +-d / +-2d in all four quadrants, every view-control sequence up to the stated depth."""
+
+import itertools
+import json
+
+import e4lib
+import e4screen
+from e4lib import hexs
+from e4c17 import KEYS, sgr
+
+D = 0.2
+LAT0, LON0 = e4lib.RX_LAT, e4lib.RX_LON
+
+# name -> (dlat, dlon) in units of d
+GEOM = {
+    'N1': (1, 0), 'N2': (2, 0), 'S1': (-1, 0), 'S2': (-2, 0),
+    'E1': (0, 1), 'E2': (0, 2), 'W1': (0, -1), 'W2': (0, -2),
+    'NE': (1, 1), 'NW': (1, -1), 'SE': (-1, 1), 'SW': (-1, -1),
+}
+ORDER = list(GEOM)
+
+DRAG = sgr(32, 40, 12) + sgr(32, 50, 15) + sgr(0, 50, 15, press=False)
+VIEW = {
+    '-': KEYS['-'], '+': KEYS['+'], 'Up': KEYS['Up'], 'Down': KEYS['Down'], 'Left': KEYS['Left'], 'Right': KEYS['Right'],
+    'Enter': KEYS['Enter'], 'Scroll': sgr(64, 40, 12), 'Drag': DRAG,
+}
+VIEW_TS = {'TsOut': sgr(0, 5, 6), 'TsIn': sgr(0, 5, 12), 'TsReset': sgr(0, 5, 18), 'Left': KEYS['Left']}
+
+CONFIGS_QUICK = [(120, 40, 0.5), (80, 24, 0.4)]
+CONFIGS_THOROUGH = [(120, 40, 0.5), (80, 24, 0.4), (200, 60, 0.5)]
+
+
+class Feed:
+    def __init__(self):
+        specs = []
+        self.icao = {}
+        for i, name in enumerate(ORDER):
+            dl, dn = GEOM[name]
+            icao = 'c%05x' % (0x100 + i)
+            self.icao[name] = icao
+            lat, lon = LAT0 + dl * D, LON0 + dn * D
+            alt = 10000 + 1000 * i
+            specs.append({'kind': 'ident', 'icao': icao, 'callsign': name})
+            specs.append({'kind': 'pos', 'icao': icao, 'lat': lat, 'lon': lon, 'alt': alt, 'odd': 0})
+            specs.append({'kind': 'pos', 'icao': icao, 'lat': lat, 'lon': lon, 'alt': alt, 'odd': 1})
+        specs.append({'kind': 'vel', 'icao': self.icao['N1'], 'east': 100, 'north': -200, 'vrate': -640})
+        specs.append({'kind': 'vel', 'icao': self.icao['SW'], 'east': -300, 'north': 50, 'vrate': 1280})
+        specs.append({'kind': 'ident', 'icao': 'c00001', 'callsign': 'NOPOS'})           # never positioned
+        specs.append({'kind': 'pos', 'icao': 'c00002', 'lat': LAT0 + 0.1, 'lon': LON0 + 0.3, 'alt': 38000, 'odd': 0})
+        specs.append({'kind': 'pos', 'icao': 'c00002', 'lat': LAT0 + 0.1, 'lon': LON0 + 0.3, 'alt': 38000, 'odd': 1})  # no callsign
+        specs.append({'kind': 'ident', 'icao': self.icao['E2'], 'callsign': 'E2'})      # repeats: counts differ per row
+        specs.append({'kind': 'ident', 'icao': self.icao['E2'], 'callsign': 'E2'})
+        specs.append({'kind': 'df11', 'icao': self.icao['W1']})                           # non-ES: must not count
+        ls = e4lib.mkfeed(specs)
+        self.lines = [(x + '\n').encode() for x in ls]
+        self.bytes = b''.join(self.lines)
+        self.table = e4lib.feed2table(self.bytes)
+        # two-phase feed for the expiry variant
+        self.part1 = b''.join(self.lines[0:6])       # N1, N2
+        self.part2 = b''.join(self.lines[6:15])      # S1, S2, E1
+        self.t1 = e4lib.feed2table(self.part1)
+        self.t2 = e4lib.feed2table(self.part2)
+        self.locations = ['(%s,%s,%s)' % (n.lower(), round(LAT0 + GEOM[n][0] * D, 4), round(LON0 + GEOM[n][1] * D, 4))
+                          for n in ORDER] + ['(rx,%s,%s)' % (LAT0, LON0)]
+
+
+def expect_of(table):
+    return {'rows': [{k: r[k] for k in ('icao', 'callsign', 'lat', 'lon', 'heading', 'alt', 'fpm', 'speed', 'dist')}
+                     | {'msgs': str(r['msgs'])} for r in table['rows']],
+            'n': table['len'], 'added': table['added_events'], 'most': table['max_simultaneous']}
+
+
+def key_step(data, letters):
+    return {'op': 'keys', 'hex': hexs(data), 'letters': letters}
+
+
+def compile_script(fd, kind, cfg, seq, delivery, alphabet, filler=True, touchscreen=False):
+    cols, rows, scale = cfg
+    argv = list(e4lib.BASE_ARGV) + ['--scale=%s' % scale, '--disable-lat-long']
+    if touchscreen:
+        argv.append('--touchscreen')
+    steps = []
+    expect = None
+    if kind == 'aircraft':
+        steps.append({'op': 'lines', 'hex': hexs(fd.bytes), 'n': len(fd.lines)})
+        expect = expect_of(fd.table)
+        labels = ORDER
+    elif kind == 'locations':
+        argv += ['--locations'] + fd.locations
+        steps.append({'op': 'sync', 'n': 3})
+        expect = {'rows': [], 'n': 0, 'added': 0, 'most': 0}
+        labels = [n.lower() for n in ORDER] + ['rx']
+    elif kind == 'expiry':
+        argv.append('--filter-time=1')
+        steps.append({'op': 'lines', 'hex': hexs(fd.part1), 'n': 6})
+        steps.append({'op': 'age', 'ms': 1600})
+        steps.append({'op': 'lines', 'hex': hexs(fd.part2), 'n': 9})
+        e2 = expect_of(fd.t2)
+        expect = {'rows': None, 'n': e2['n'], 'icaos': [r['icao'] for r in e2['rows']],
+                  'added': fd.t1['added_events'] + fd.t2['added_events'],
+                  'most': max(fd.t1['max_simultaneous'], fd.t2['max_simultaneous'])}
+        labels = ['S1', 'S2', 'E1']
+    else:
+        raise ValueError(kind)
+    s3 = {'op': 'sync', 'n': 3}
+    steps += [key_step(KEYS['F3'], ['F3']), s3, {'op': 'snap', 'name': 'air0'},
+              key_step(KEYS['F4'], ['F4']), s3, {'op': 'snap', 'name': 'stats0'},
+              key_step(KEYS['F1'], ['F1']), s3, {'op': 'snap', 'name': 'map0'}]
+    if kind != 'expiry':
+        if delivery == 'batched':
+            if seq:
+                steps += [key_step(b''.join(alphabet[a] for a in seq), list(seq)), s3]
+        else:
+            for a in seq:
+                steps += [key_step(alphabet[a], [a]), s3]
+        steps += [{'op': 'snap', 'name': 'map1'},
+                  key_step(KEYS['F3'], ['F3']), s3, {'op': 'snap', 'name': 'air1'},
+                  key_step(KEYS['F1'], ['F1']), s3,
+                  key_step(KEYS['Enter'], ['Enter']), s3, {'op': 'snap', 'name': 'map2'}]
+    steps.append({'op': 'quit', 'hex': '71', 'letters': ['q']})
+    key = 'radar|%dx%d|scale=%s|feed=%s%s|%s|%s|view=%s' % (cols, rows, scale, kind, '+ts' if touchscreen else '',
+                                                            'filler' if filler else 'nofiller', delivery,
+                                                            ','.join(seq) or 'none')
+    return {'binary': 'radar', 'oracle': 'c18', 'key': key, 'argv': argv, 'size': [cols, rows], 'filler': filler,
+            'steps': steps, 'kind': kind, 'labels': labels, 'expect': expect, 'events': list(seq), 'touchscreen': touchscreen,
+            'geom': {n: list(GEOM[n]) for n in ORDER},
+            'expected': 'Airplanes tab == vh feed2table cells; Stats totals == added/max; map: north above, east right, 2d twice '
+                        'as far as d; view controls leave the Airplanes tab unchanged; Enter restores the initial map'}
+
+
+# ---------------------------------------------------------------------------------------------
+def table_region(lines):
+    for i, ln in enumerate(lines):
+        if '┌Airplanes(' in ln:
+            return lines[i:]
+    return None
+
+
+def geom_of(label):
+    return GEOM[label.upper()] if label.upper() in GEOM else None
+
+
+def check_order(labels_pos, strict_gap, probs, tag):
+    """pairwise: north-of => smaller row, east-of => larger column (strict when |delta| >= 1 d), equal => within 1"""
+    names = [n for n in labels_pos if geom_of(n) is not None and not isinstance(labels_pos[n][0], str)]
+    for a, b in itertools.combinations(names, 2):
+        (la, na), (lb, nb) = geom_of(a), geom_of(b)
+        (ca, ra), (cb, rb) = labels_pos[a], labels_pos[b]
+        if la != lb:
+            north, south = (ra, rb) if la > lb else (rb, ra)
+            if not (north < south if strict_gap else north <= south):
+                probs.append('%s:north-not-above(%s,%s)' % (tag, a, b))
+        elif abs(ra - rb) > 1:
+            probs.append('%s:same-lat-rows-differ(%s,%s)' % (tag, a, b))
+        if na != nb:
+            east, west = (ca, cb) if na > nb else (cb, ca)
+            if not (east > west if strict_gap else east >= west):
+                probs.append('%s:east-not-right(%s,%s)' % (tag, a, b))
+        elif abs(ca - cb) > 1:
+            probs.append('%s:same-lon-cols-differ(%s,%s)' % (tag, a, b))
+
+
+def judge(script, obs):
+    probs = []
+    snaps = obs.get('snaps', {})
+    kind = script['kind']
+    exp = script['expect']
+    facts = {}
+    # 0. the run itself
+    if obs.get('panic'):
+        p = obs['panic']
+        probs.append('panic=%s:%s' % (p['file'].split('/')[-1], p['msg']))
+    if obs.get('died_at') is not None and not obs.get('quit_sent'):
+        probs.append('exit-early=%s' % obs.get('exit_code'))
+    elif obs.get('frozen_at') is not None:
+        probs.append('no-heartbeat')
+    elif obs.get('exit_code') != 0:
+        probs.append('exit=%s' % obs.get('exit_code'))
+    # 1. Airplanes tab == library
+    air0 = snaps.get('air0')
+    if air0:
+        t = e4screen.parse_airplanes(air0['lines'])
+        tab_n = e4screen.tab_title_count(air0['lines'])
+        if t is None:
+            probs.append('air0:no-table')
+        else:
+            facts['rows'] = len(t['rows'])
+            if tab_n != exp['n'] or t['title_n'] != exp['n']:
+                probs.append('air0:title=%s/%s want %s' % (tab_n, t['title_n'], exp['n']))
+            if exp.get('rows') is not None:
+                if len(t['rows']) != len(exp['rows']):
+                    probs.append('air0:rows=%d want %d' % (len(t['rows']), len(exp['rows'])))
+                for got, want in zip(t['rows'], exp['rows']):
+                    for f in e4screen.FIELDS:
+                        w = t['col'][f][1]
+                        wv = want[f]
+                        if len(wv) > w:
+                            wv = wv[:w].strip()     # cell wider than its column: the column-width prefix
+                        if got[f] != wv:
+                            probs.append('air0:cell %s.%s=%r want %r' % (want['icao'], f, got[f], wv))
+            elif exp.get('icaos') is not None:
+                if [r['icao'] for r in t['rows']] != exp['icaos']:
+                    probs.append('air0:icaos=%s want %s' % ([r['icao'] for r in t['rows']], exp['icaos']))
+    # 2. Stats
+    st0 = snaps.get('stats0')
+    if st0:
+        s = e4screen.parse_stats(st0['lines'])
+        if not s or 'total' not in s:
+            probs.append('stats0:unreadable')
+        else:
+            facts['stats'] = (s.get('total'), s.get('most'))
+            if s['total'] != str(exp['added']):
+                probs.append('stats0:total=%s want %s' % (s['total'], exp['added']))
+            want_most = str(exp['most']) if exp['most'] else ''
+            got_most = s.get('most', '') if exp['most'] else ('' if s.get('most_raw', '').strip() in ('None', '') else s.get('most'))
+            if got_most != want_most:
+                probs.append('stats0:most=%s want %s' % (got_most, want_most))
+    # 3. Map geometry
+    m0 = snaps.get('map0')
+    if m0:
+        mp = e4screen.parse_map(m0['lines'], script['labels'])
+        if mp is None:
+            probs.append('map0:no-map')
+        else:
+            box = mp['box']
+            cx = (box[0] + box[2]) / 2.0
+            cy = (box[1] + box[3]) / 2.0
+            if abs(mp['axis_col'] - cx) > 1 or abs(mp['axis_row'] - cy) > 1:
+                probs.append('map0:axes-not-centred(%s,%s vs %.1f,%.1f)' % (mp['axis_col'], mp['axis_row'], cx, cy))
+            lp = mp['labels']
+            missing = [n for n in script['labels'] if n not in lp]
+            amb = [n for n in lp if isinstance(lp[n][0], str)]
+            if missing:
+                probs.append('map0:labels-missing=%s' % ','.join(missing))
+            if amb:
+                probs.append('map0:labels-ambiguous=%s' % ','.join(amb))
+            pos = {n: p for n, p in lp.items() if not isinstance(p[0], str)}
+            facts['labels'] = len(pos)
+            check_order(pos, True, probs, 'map0')
+            ac, ar = mp['axis_col'], mp['axis_row']
+            if 'rx' in pos:
+                if abs(pos['rx'][0] - ac) > 1 or abs(pos['rx'][1] - ar) > 1:
+                    probs.append('map0:receiver-not-at-centre%s' % (pos['rx'],))
+
+            def P(n):
+                return pos.get(n if kind != 'locations' else n.lower())
+            # columns: label column is the projected x itself (both kinds)
+            for one, two in (('E1', 'E2'), ('W1', 'W2')):
+                if P(one) and P(two):
+                    d1, d2 = abs(P(one)[0] - ac), abs(P(two)[0] - ac)
+                    facts.setdefault('d1_cols', d1)
+                    if d1 < 3:
+                        probs.append('map0:vacuous-col-distance(%s=%d)' % (one, d1))
+                    if abs(d2 - 2 * d1) > 2:
+                        probs.append('map0:col-ratio(%s=%d,%s=%d)' % (one, d1, two, d2))
+            if P('E1') and P('W1') and abs(abs(P('E1')[0] - ac) - abs(P('W1')[0] - ac)) > 2:
+                probs.append('map0:east-west-asymmetric')
+            # rows: locations are printed at their position; aircraft labels 20 plot units above theirs -> differences
+            if kind == 'locations':
+                for one, two in (('N1', 'N2'), ('S1', 'S2')):
+                    if P(one) and P(two):
+                        d1, d2 = abs(P(one)[1] - ar), abs(P(two)[1] - ar)
+                        facts.setdefault('d1_rows', d1)
+                        if d1 < 2:
+                            probs.append('map0:vacuous-row-distance(%s=%d)' % (one, d1))
+                        if abs(d2 - 2 * d1) > 2:
+                            probs.append('map0:row-ratio(%s=%d,%s=%d)' % (one, d1, two, d2))
+            elif all(P(n) for n in ('N1', 'N2', 'S1', 'S2')):
+                inner = P('S1')[1] - P('N1')[1]
+                outer = P('S2')[1] - P('N2')[1]
+                facts['d1_rows'] = inner / 2.0
+                if inner < 4:
+                    probs.append('map0:vacuous-row-distance(S1-N1=%d)' % inner)
+                if abs(outer - 2 * inner) > 3:
+                    probs.append('map0:row-ratio(S1-N1=%d,S2-N2=%d)' % (inner, outer))
+    # 4. view controls change only the view
+    if kind != 'expiry':
+        m1 = snaps.get('map1')
+        if m1:
+            mp1 = e4screen.parse_map(m1['lines'], script['labels'])
+            if mp1 is None:
+                probs.append('map1:no-map')
+            else:
+                pos1 = {n: p for n, p in mp1['labels'].items() if not isinstance(p[0], str)}
+                facts['labels_after_view'] = len(pos1)
+                check_order(pos1, False, probs, 'map1')
+        air1 = snaps.get('air1')
+        if air0 and air1:
+            r0, r1 = table_region(air0['lines']), table_region(air1['lines'])
+            if r0 is None or r1 is None:
+                probs.append('air1:no-table')
+            elif r0 != r1:
+                diff = [i for i, (a, b) in enumerate(zip(r0, r1)) if a != b]
+                probs.append('air1:table-changed-after-view(lines %s)' % diff[:4])
+            if e4screen.tab_title_count(air1['lines']) != e4screen.tab_title_count(air0['lines']):
+                probs.append('air1:title-changed')
+        m2 = snaps.get('map2')
+        if m0 and m2 and m0['lines'] != m2['lines']:
+            diff = [i for i, (a, b) in enumerate(zip(m0['lines'], m2['lines'])) if a != b]
+            probs.append('map2:reset-differs-from-initial(lines %s)' % diff[:4])
+        facts['view_changed_map'] = bool(m0 and m1 and m0['lines'] != m1['lines'])
+    need = ['air0', 'stats0', 'map0'] + ([] if kind == 'expiry' else ['map1', 'air1', 'map2'])
+    if not probs and any(n not in snaps for n in need):
+        probs.append('snapshots-missing')
+    screens = [e4lib.digest16(json.dumps(snaps[n]['lines'])) for n in snaps]
+    outcome = 'ok rows=%s stats=%s labels=%s moved=%s' % (facts.get('rows'), facts.get('stats'), facts.get('labels'),
+                                                          facts.get('view_changed_map'))
+    summary = {'events': len([s for s in script['steps'] if s['op'] in ('keys', 'lines', 'quit')]), 'screens': screens,
+               'outcome': outcome if not probs else probs[0].split('(')[0]}
+    if not probs:
+        return None, summary
+    first = probs[0]
+    cls = first.split('=')[0].split('(')[0].split(' ')[0]
+    observed = '|'.join(probs[:4]) + ('|+%d more' % (len(probs) - 4) if len(probs) > 4 else '')
+    return {'class': 'C18/' + cls, 'observed': observed, 'expected': script['expected'],
+            'detail': {'problems': probs[:20], 'facts': facts,
+                       'map0': (m0 or {}).get('lines'), 'air0': (air0 or {}).get('lines')}}, summary
+
+
+e4lib.register_judge('c18', judge)
+
+
+def enumerate_scripts(tier, fd):
+    out = []
+    parts = {}
+    depth = 2 if tier == 'quick' else 3
+    cfgs = CONFIGS_QUICK if tier == 'quick' else CONFIGS_THOROUGH
+    names = list(VIEW)
+    seqs = [()]
+    for k in range(1, depth + 1):
+        seqs += list(itertools.product(names, repeat=k))
+    n0 = len(out)
+    for ci, cfg in enumerate(cfgs):
+        for kind in ('aircraft', 'locations'):
+            for seq in seqs:
+                # full depth on the first configuration, depth<=1 on the others (quick) / depth<=2 (thorough)
+                lim = depth if ci == 0 else depth - 1
+                if len(seq) > lim:
+                    continue
+                out.append(compile_script(fd, kind, cfg, seq, 'separated', VIEW))
+                if len(seq) >= 2 and (tier != 'quick' or kind == 'aircraft'):
+                    out.append(compile_script(fd, kind, cfg, seq, 'batched', VIEW))
+    parts['view sequences depth<=%d over %d letters x {aircraft, locations} x configs %s (full depth on the first, depth-1 on the others)'
+          % (depth, len(names), ['%dx%d@%s' % c for c in cfgs])] = len(out) - n0
+    n0 = len(out)
+    ts_names = list(VIEW_TS)
+    ts_seqs = [()] + [(a,) for a in ts_names] + list(itertools.product(ts_names, repeat=2))
+    if tier != 'quick':
+        ts_seqs += list(itertools.product(ts_names, repeat=3))
+    for seq in ts_seqs:
+        out.append(compile_script(fd, 'aircraft', cfgs[0], seq, 'separated', VIEW_TS, touchscreen=True))
+    parts['touchscreen view sequences over %s' % ts_names] = len(out) - n0
+    n0 = len(out)
+    for cfg in cfgs:
+        for kind in ('aircraft', 'locations'):
+            for seq in [()] + [(a,) for a in names]:
+                out.append(compile_script(fd, kind, cfg, seq, 'separated', VIEW, filler=False))
+        out.append(compile_script(fd, 'expiry', cfg, (), 'separated', VIEW))
+    parts['controls without pacing filler (depth<=1) + expiry variant (Total != Most)'] = len(out) - n0
+    return out, parts
+
+
+ASSUMPTIONS = [
+    'black box: the real radar binary under a pty; the screen is reconstructed by a VT model (CUP/ED/EL/UTF-8 cells, SGR ignored)',
+    'expected table cells / counters come from vh feed2table (real decoder + real tracker library) on the same lines and receiver position',
+    'expiry variant: expected = feed2table of the second phase, Total = sum of Added events, Most = max of both phases (1.6 s wait against --filter-time=1)',
+    'map oracle is geometric only: pairwise order of labels, axes centred, 2d labels twice as far as d labels with a quantisation tolerance of 2 cells (3 for differences of two labels)',
+    'aircraft labels are drawn 20 plot units above the aircraft, therefore rows of aircraft are compared as differences, columns against the axis',
+    '--disable-lat-long is used so that labels are the bare callsigns (no overlap); a cell wider than its column is compared by its column-width prefix',
+    'snapshots are taken at a heartbeat (complete frame) after 3 heartbeats following the last key',
+]
+
+
 def run(tier):
-    raise NotImplementedError
+    fd = Feed()
+    scripts, parts = enumerate_scripts(tier, fd)
+    ex = e4lib.Explorer('C18', tier)
+    try:
+        ex.run(scripts)
+        cov = {'exhaustive': not ex.machinery,
+               'bound': {'view_alphabet': list(VIEW), 'touchscreen_alphabet': list(VIEW_TS), 'parts': parts,
+                         'aircraft': len(fd.table['rows']), 'feed_lines': len(fd.lines), 'd_deg': D,
+                         'expected_table': fd.table['rows'][:3]},
+               'rule': 'one script per (feed kind, terminal/scale config, view sequence, delivery); distinct = distinct script key; '
+                       'non-trivial = all snapshots taken and judged',
+               'caps_hit': []}
+        return ex.report('model_checking', cov, ASSUMPTIONS)
+    finally:
+        ex.close()
